@@ -126,10 +126,16 @@ MAS_OBL = "termination of the master's turn; per slot: untouched | declined | se
 h("c14_master_empty_terminates", "dp_master.rs", MV, ["C14"], panic_props=["C14", "C05"], timeout_s=600, functions=MASF, derived_loops=[""],
   bounds="DP master with one unoccupied storage slot (no peripheral configured), any operating/cycle state, high-priority-only turn (global control never due); slot loop bound derived: <= 2 passes; unwind 5",
   obligation="the turn ends (no hang), nothing is sent, the cycle restarts at slot 0", hang_test="hang_c14_master_empty")
-h("c14_master_transmit_2slots_q", "dp_master.rs", MV, ["C14"], panic_props=["C14", "C05"], timeout_s=2400, mem_gb=14, weight=4, functions=MASF, derived_loops=[""],
+h("c14_master_receive_3slots_q", "dp_master.rs", MV, ["C14"], panic_props=["C14", "C05"], timeout_s=1200, mem_gb=10, weight=2, stubbing=True, functions=MASF,
+  stubs=["Peripheral::receive_reply -> arbitrary post-state under Inv_DP + arbitrary event (its real behaviour is c03_receive_step_*'s subject)"],
+  bounds="3 storage slots with symbolic occupancy, any cycle index with a reply outstanding for the slot it denotes; unwind 8",
+  obligation="a reply touches only the addressed slot; the cycle advances to the next occupied slot or completes (reported once); the event names the replying peripheral")
+h("c14_master_transmit_2slots_q", "dp_master.rs", MV, ["C14"], panic_props=["C14", "C05"], timeout_s=2400, mem_gb=14, weight=4, functions=MASF, derived_loops=[""], stubbing=True,
+  stubs=["Peripheral::transmit_telegram -> reference behaviour proved by c03_transmit_step_* (request kind, retry counting, Offline event); frame contents not modelled"],
   bounds="2 storage slots with symbolic occupancy (sparse included), each occupied slot an arbitrary peripheral under Inv_DP (1-byte images, user prm/config present or not); any master state (Stop/Clear/Operate, cycle index or CycleCompleted, last global control); unwind 16",
   obligation=MAS_OBL)
-h("c14_master_transmit_3slots_t", "dp_master.rs", MV, ["C14"], panic_props=["C14", "C05"], tier="thorough", timeout_s=7200, mem_gb=20, weight=6, functions=MASF, derived_loops=[""],
+h("c14_master_transmit_3slots_t", "dp_master.rs", MV, ["C14"], panic_props=["C14", "C05"], tier="thorough", timeout_s=7200, mem_gb=20, weight=6, functions=MASF, derived_loops=[""], stubbing=True,
+  stubs=["Peripheral::transmit_telegram -> reference behaviour proved by c03_transmit_step_*"],
   bounds="3 storage slots; otherwise as _2slots_q", obligation=MAS_OBL)
 
 # ---- C18: live list / DP scanner -------------------------------------------------------------------
@@ -189,6 +195,75 @@ h("c20_kernel", "harness.rs", "harness", ["C20"], crate="ext-gsd", timeout_s=300
 h("c20_kernel_bitarea_frame_witness", "harness.rs", "harness", ["C20"], crate="ext-gsd", timeout_s=300, functions=["UserPrmDataType::write_value_to_slice"],
   bounds="ALL bit areas, ALL accepted values, ALL bytes", obligation="witness of known finding F9: writing a bit area changes no bit outside the area")
 
+# ---- C16: receive helpers ----------------------------------------------------------------------------
+PHF = ["ProfibusPhy::{receive_telegram,receive_all_telegrams,poll_pending_received_bytes} (default methods)", "Telegram::deserialize", "KPhy (byte-level harness PHY)"]
+PM = "phy::verif"
+h("c16_receive_all_vs_decoder_q", "phy_mod.rs", PM, ["C16"], panic_props=["C16", "C05"], timeout_s=1800, mem_gb=12, weight=3, functions=PHF,
+  bounds="ANY buffer content of 0..=9 bytes (up to 9 telegrams), one receive_all_telegrams call; unwind 12",
+  obligation="handed-over telegrams == iterated decoder (in order, once each), is_last iff nothing buffered behind, result forwarded iff last flagged, undecodable data discarded entirely, incomplete telegram untouched")
+h("c16_receive_all_vs_decoder_t", "phy_mod.rs", PM, ["C16"], panic_props=["C16", "C05"], tier="thorough", timeout_s=7200, mem_gb=16, weight=4, functions=PHF,
+  bounds="ANY buffer content of 0..=16 bytes; unwind 20", obligation="as _q")
+h("c16_receive_one_vs_decoder_q", "phy_mod.rs", PM, ["C16"], panic_props=["C16", "C05"], timeout_s=900, functions=PHF,
+  bounds="ANY buffer content of 0..=9 bytes, one receive_telegram call; unwind 12", obligation="first telegram handed over once, exactly its bytes dropped; garbage discarded; incomplete untouched; pending count == buffered bytes")
+h("c16_chunked_stream_q", "phy_mod.rs", PM, ["C16"], panic_props=["C16", "C05"], timeout_s=1800, mem_gb=12, weight=3, functions=PHF + ["TelegramTx::* (real encoder builds the stream)"],
+  bounds="stream of 2 telegrams from the real encoder (token | SC | SD1 data, all fields symbolic), cut at ANY position into 2 deliveries, symbolic choice of helper after the first; unwind 14",
+  obligation="both telegrams received in order, each once, wherever the cut; nothing dropped while incomplete; buffer empty at the end, final telegram flagged last")
+h("c16_garbage_then_telegram_q", "phy_mod.rs", PM, ["C16"], panic_props=["C16", "C05"], timeout_s=1200, functions=PHF,
+  bounds="ANY undecodable prefix of 1..=6 bytes, then one telegram from the real encoder delivered separately; unwind 14", obligation="garbage discarded entirely; the next telegram is received correctly and flagged last")
+
+# ---- C01 time lemmas, C03 watchdog ---------------------------------------------------------------------
+PAV = "fdl::parameters::verif"
+BAUDS = ["b9600", "b19200", "b31250", "b45450", "b93750", "b187500", "b500000", "b1500000", "b3000000", "b6000000", "b12000000"]
+QUICK_BAUDS = {"b19200", "b1500000", "b12000000"}
+for b in BAUDS:
+    h("c01_bits_to_time_" + b, "fdl_parameters.rs", PAV, ["C01"], tier="quick" if b in QUICK_BAUDS else "thorough", timeout_s=900,
+      functions=["Baudrate::{bits_to_time,to_rate}"], bounds="baud rate %s, ALL bit counts 0..=2^25" % b,
+      obligation="floor conversion in exact arithmetic: t*rate <= bits*10^6 < (t+1)*rate")
+    h("c01_tto_stagger_" + b, "fdl_parameters.rs", PAV, ["C01", "C06"], tier="quick" if b in QUICK_BAUDS else "thorough", timeout_s=1800, mem_gb=10, weight=2,
+      functions=["Parameters::{token_lost_timeout,slot_time,bits_to_time}", "min_slot_bits"], bounds="baud rate %s, ALL slot_bits >= the baud's minimum, ALL address pairs a < b <= 125" % b,
+      obligation="TTO(a) >= 6 slot times, TTO(b) - TTO(a) >= 2*(b-a) slot times, TTO == (6+2a)*slot_bits bit times rounded down")
+h("c03_watchdog_factors", "fdl_parameters.rs", PAV, ["C03"], timeout_s=1800, mem_gb=10, weight=2, functions=["ParametersBuilder::watchdog_timeout", "watchdog_factors", "Parameters::watchdog_timeout"],
+  bounds="ALL timeouts 10 ms ..= 650 s at microsecond resolution; factor search loop fully unwound (unwind 258)", obligation="factors in 1..=255, f1*f2*10 ms >= floor(timeout/10 ms)*10 ms, reported time == f1*f2*10 ms")
+
+# ---- C02: token ring model lemmas and L1 equivalences ---------------------------------------------------
+TRV = "fdl::token_ring::verif"
+h("c02_model_set_next", "fdl_token_ring.rs", TRV, ["C02", "C12"], timeout_s=900, functions=["reference model (Model::set_next)"],
+  bounds="ALL ring views under the ring invariant (any 126-bit LAS, any LAS state, any TS), ALL addresses", obligation="NS' == a, LAS state untouched, invariant kept, pass algebra")
+h("c02_model_remove", "fdl_token_ring.rs", TRV, ["C02", "C11"], timeout_s=900, functions=["reference model (Model::remove)"],
+  bounds="ALL ring views, ALL addresses != TS", obligation="NS' != a, only a leaves the LAS, state untouched, invariant kept")
+h("c02_model_witness", "fdl_token_ring.rs", TRV, ["C02"], timeout_s=1800, mem_gb=10, weight=2, functions=["reference model (Model::witness)"],
+  bounds="ALL ring views, ALL (SA, DA) byte pairs", obligation="invalid addresses ignored; valid LAS: removes exactly the jumped-over addresses, adds SA, stays valid; own pass to NS and in-order passes change nothing (stability); invariant kept")
+h("c02_model_three_rotations_3", "fdl_token_ring.rs", TRV, ["C02"], timeout_s=2400, mem_gb=12, weight=3, functions=["reference model (Model::witness)"],
+  bounds="rings of 2..=3 stations at ANY addresses, listener at ANY address not in the ring, ANY start state and start point, 3 rotations; unwind 11", obligation="LAS valid == ring, NS/PS == cyclic neighbours of TS")
+h("c02_model_three_rotations_5_t", "fdl_token_ring.rs", TRV, ["C02"], tier="thorough", timeout_s=7200, mem_gb=16, weight=4, functions=["reference model (Model::witness)"],
+  bounds="rings of 2..=5 stations; otherwise as _3; unwind 17", obligation="as _3")
+h("c02_l1_control_flow", "fdl_token_ring.rs", TRV, ["C02"], panic_props=["C02", "C05"], timeout_s=900, stubbing=True,
+  functions=["TokenRing::{witness_token_pass,set_next_station,remove_station,claim_token,ready_for_ring,next_station,previous_station,this_station}"],
+  stubs=["TokenRing::{update_las_from_token_pass,verify_las_from_token_pass,update_next_previous} -> model (the bitvec leaves; c02_l1_update_las relates the range fill; the neighbour search leaf is an ASSUMPTION, see DESIGN 2.1)"],
+  bounds="ALL ring views under the ring invariant, ALL address bytes", obligation="real control flow == reference model for the four mutators; observers == model values")
+h("c02_l1_update_las", "fdl_token_ring.rs", TRV, ["C02"], panic_props=["C02", "C05"], tier="thorough", timeout_s=3600, mem_gb=14, weight=3, functions=["bitvec BitSlice range fill / set as used by update_las_from_token_pass"],
+  bounds="ALL 126-bit LAS, ALL SA, DA <= 125; unwind 130", obligation="bitvec range fill + set == model mask arithmetic")
+
+# ---- C07: reference master refined by the real peripheral; joint system with the reference slave ---------
+h("c07_refines_transmit", "dp_peripheral.rs", PV, ["C07"], panic_props=["C07", "C05"], timeout_s=1200, mem_gb=10, weight=2, functions=PERF,
+  bounds="ONE transmit_telegram from ANY peripheral state under Inv_DP (user prm and config present, 1 byte each), max_retry_limit 1..15; unwind 14",
+  obligation="request sent / Offline raised exactly as by RefMaster, request kind (DSAP) as RefMaster's, control state afterwards (state, retry count, FCB, diag_needed, diag_requested) == RefMaster's")
+h("c07_refines_receive", "dp_peripheral.rs", PV, ["C07"], panic_props=["C07", "C05"], timeout_s=1200, mem_gb=10, weight=2, functions=PERF,
+  bounds="ONE receive_reply from ANY peripheral state under Inv_DP with ANY FDL-admissible reply (PDU <= 8 B, inputs 0..1 B); unwind 14",
+  obligation="event and control state afterwards == RefMaster's for the reply's class (SC / well-formed diagnostics with its fault flags / data with status and length match)")
+C07F = ["RefMaster (proved equal to the real Peripheral control state by c07_refines_*)", "RefSlave (reference DP-V0 slave with FCB retry detection)"]
+C07O = "after the history: within the fault-free window master in DataExchange and slave in Data_Exch, stable afterwards; Online only when not live, Offline only when live; events tell is_live()"
+h("c07_history_progress_limit1_q", "dp_peripheral.rs", PV, ["C07", "C14"], timeout_s=1800, mem_gb=10, weight=2, functions=C07F,
+  bounds="fresh master, slave in ANY stage with ANY stored response; EVERY history of 10 events over {fault-free turn, turn with transient parameter-fault / configuration-fault report, turn with high-priority (diagnostics) data reply, request lost, reply lost, slave power cycle, user request_diagnostics()}; then 12 fault-free turns; max_retry_limit 1; unwind 14",
+  obligation=C07O)
+h("c07_history_progress_limit1_t", "dp_peripheral.rs", PV, ["C07", "C14"], tier="thorough", timeout_s=7200, mem_gb=16, weight=4, functions=C07F,
+  bounds="as _q with EVERY history of 22 events (an explicit-state exploration of the same reference pair, outside this framework, finds its reachable set closed at depth 21 for limit 1); unwind 26", obligation=C07O)
+h("c07_history_progress_limit3_t", "dp_peripheral.rs", PV, ["C07", "C14"], tier="thorough", timeout_s=7200, mem_gb=16, weight=4, functions=C07F,
+  bounds="EVERY history of 26 events, then 14 fault-free turns; max_retry_limit 3; unwind 28", obligation=C07O)
+h("c07_silent_goes_offline", "dp_peripheral.rs", PV, ["C07", "C08"], timeout_s=1800, mem_gb=10, weight=2, functions=["RefMaster"],
+  bounds="EVERY live RefMaster state, max_retry_limit 1..15 symbolic, 36 silent turns; unwind 40",
+  obligation="exactly one Offline event; exactly 1+limit transmissions (counting earlier ones) before it; afterwards only diagnostics probes with the initial FCB")
+
 PROPERTIES = {
     "C09": {
         "claim": "Bounded: for every header (DA/SA 0..127, any SAP options, any function code) and every payload within the stated length/content bounds the real encoder's bytes equal an independent reference frame encoder, the reported lengths agree, and the real decoder returns the identical telegram consuming exactly the frame. Function codes: exhaustive over all bytes and all values.",
@@ -209,6 +284,14 @@ PROPERTIES = {
         "assumptions": ["replies restricted to the FDL admission predicate (C15)", "image lengths 0..=4 (quick) / 0..=32 (thorough) with symbolic content; lengths up to 244 are not explored",
                         "whether OK-status replies update the image is left open by the property; the code accepts them (allowed by the oracle), RDL/RDH replies are allowed either way"],
         "outside": ["images longer than 32 bytes"],
+    },
+    "C07": {
+        "claim": "Compositional, bounded: (1) refinement - one real transmit_telegram / receive_reply from EVERY peripheral state under Inv_DP and every FDL-admissible reply changes the peripheral's control state (bring-up state, retry counter, frame count bit, pending and outstanding diagnostics) and raises events exactly like RefMaster, a complete deterministic reference of the master-side slave handler; (2) joint system - from a fresh RefMaster and a RefSlave (reference DP-V0 slave: Wait_Prm/Wait_Cfg/Data_Exch with frame-count-bit retry detection) in any stage, EVERY history of 10 (quick) / 22-26 (thorough) events over {fault-free turn, transient fault report, diagnostics-signalling reply, request lost, reply lost, power cycle, user diagnostics request} followed by 12-14 fault-free turns ends with master and slave in cyclic data exchange, where they stay; Configured precedes DataExchanged after Online; a silent peripheral is reported Offline exactly once after exactly 1+limit transmissions and then only probed.",
+        "assumptions": ["the slave's parameters and configuration match (the property's premise) and it answers wrong-stage services with 'SAP not enabled'",
+                        "joint exploration is on the reference pair; the link to the real code is the one-step refinement (all states, all admissible replies)",
+                        "max_retry_limit 1 (quick) and 1, 3 (thorough) for the progress bound; 1..15 for the Offline accounting", "history depth bounded (10 / 22 / 26 events); an all-joint-states formulation needs a joint invariant that was not completed (DESIGN C07)",
+                        "one peripheral (C14's routing lemma extends it to several)"],
+        "outside": ["progress bounds for max_retry_limit > 3 (the mechanism is identical; the window grows by 2 turns per retry)"],
     },
     "C08": {
         "claim": "Bounded, inductive over pairs: from EVERY peripheral state under Inv_DP, for every interlude of user calls, one admissible reply or a time-out between two consecutive real transmit_telegram calls, the decoded wire requests obey the frame-count-bit discipline (same bit with FCV=1 only for a retransmission of the same service to the same destination without an accepted reply in between; toggled with FCV=1 after every accepted reply; FCV=0/FCB=1 for a new peripheral and after the Offline event), a request is transmitted only while retry_count <= max_retry_limit (<= 1+limit transmissions of an unanswered request, counter proved to count every transmission), the Offline event is raised exactly when the limit is exceeded and only while live, and an offline peripheral is only probed with diagnostics requests.",
@@ -280,6 +363,11 @@ PROPERTIES = {
         "claim": "Bounded/complete for the kernel: for ALL data types, ALL i64 values and ALL 4-byte windows write_value_to_slice accepts exactly the type's value range, writes big-endian two's complement into exactly the parameter's bits and leaves the window unchanged on rejection; builder: for parameter blocks of 4 constant bytes with two parameters at symbolic offsets (may share a byte) with symbolic types, defaults and constraints, PrmBuilder::new and set_prm produce exactly the reference overlay, and every error (constraint, range, unknown name) is a value and leaves the block unchanged.",
         "assumptions": ["bit indices 0..7 and first <= last (what a GSD file can express)", "builder: concrete heap shape (2 parameters, one-letter names), Arc::drop_slow stubbed to a no-op (all Arcs are leaked on purpose; deallocation is not the subject)"],
         "outside": ["layouts with more than 2 parameters or offsets > 3; set_prm_from_text's BTreeMap lookup"],
+    },
+    "C16": {
+        "claim": "Bounded: for EVERY buffer content up to 9 (quick) / 16 (thorough) bytes the real helper methods hand over exactly the telegrams the decoder finds one after the other - in order, once, flagged last iff nothing is buffered behind - drop exactly their bytes, discard undecodable data entirely and never touch a still incomplete telegram (the helpers keep no state of their own, so chunking independence follows); additionally shown directly for 2-telegram streams from the real encoder cut at any position; garbage followed by a separately arriving telegram is received correctly. This is also the contract the telegram-level PHY (TPhy) of the station harnesses models.",
+        "assumptions": ["harness PHY (KPhy) as the byte buffer; SimulatorPhy (Arc<Mutex<Vec>>, a test double) is not encoded"],
+        "outside": ["SimulatorPhy; streams of more than 16 buffered bytes; SD2/SD3 frames in the chunking harness (covered by the arbitrary-buffer harnesses up to 16 bytes)"],
     },
     "C17": {
         "claim": "Bounded: for every diagnostics reply (PDU <= 10 / 40 bytes) the reported flags, ident number and master address equal the reply bytes; extended diagnostics are stored iff flagged, a buffer exists and they fit, otherwise the stored ones are unchanged; iterating ANY stored byte string (<= 8 / 24 bytes) terminates without panic within length+1 calls, yields exactly the blocks an independent reference parser finds (type, position, length, decoded fields), and yields nothing after the first malformed block; also with no buffer attached, with logging enabled.",
